@@ -237,6 +237,28 @@ def poke_invalid(m, scale=None, tol=None):
                 m.set_tolerance(tol)
 
 
+def recheck_after_reconfiguration(col, kind, m, last, half, depth_of, describe, rp):
+    """The map was just reconfigured (set_scale / set_tolerance): the path it returns now for the line it sampled last must carry
+    the heights it reports now."""
+    if last is None:
+        return
+    col.count("path_calls_after_reconfiguration")
+    try:
+        pts = as_points(m.sample_path(list(last)))
+    except Exception as e:                                           # noqa: BLE001
+        col.violation(f"{kind}:sample_path-raised", f"{describe}: sample_path({list(last)}) after reconfiguration raised {e!r}", rp)
+        return
+    if pts is None:
+        col.violation(f"{kind}:malformed-path", f"{describe}: sample_path({list(last)}) after reconfiguration", rp)
+        return
+    try:
+        problems = check_path_geometry(pts, last, half, depth_of)
+    except Exception as e:                                           # noqa: BLE001
+        problems = [("get_depth_at-raised-on-path-point", repr(e))]
+    for clause, msg in problems:
+        col.violation(f"{kind}:{clause}:after-reconfiguration", f"{describe}, line {list(last)} sampled again right after reconfiguring the map: {msg}", rp)
+
+
 def half_lattice(lo, hi):
     n = int(round((hi - lo) * 2))
     return [lo + 0.5 * i for i in range(n + 1)]
@@ -278,6 +300,7 @@ def check_raster(col, h, w, bits, rows, scales, tols, lines, queries, want_obs=F
     outcome = []
     obs = {}
     nontrivial = False
+    last_line, prev_scale = None, None
     for scale in scales:
         m.set_scale(scale)
         poke_invalid(m, scale=scale)
@@ -288,6 +311,12 @@ def check_raster(col, h, w, bits, rows, scales, tols, lines, queries, want_obs=F
             if k not in _c:
                 _c[k] = float(m.get_depth_at(x, y))
             return _c[k]
+
+        if last_line is not None:
+            r = rp(scale, tols[-1] if tols else None, line=list(last_line))
+            r["prev_scale"] = prev_scale
+            recheck_after_reconfiguration(col, "raster", m, last_line, 0.5, depth_of, f"{bits}-bit {h}x{w} image, scale {prev_scale} -> {scale}", r)
+        prev_scale = scale
 
         for (x, y) in queries:
             col.count("depth_queries")
@@ -323,6 +352,7 @@ def check_raster(col, h, w, bits, rows, scales, tols, lines, queries, want_obs=F
 
         for line in lines:
             walk = None
+            last_line = line
             for tol in (0.0,) + tuple(tols):
                 col.count("path_calls")
                 m.set_tolerance(tol)
@@ -528,12 +558,19 @@ def check_sparse(col, pts3, scales, lines_by_tol, queries, want_obs=False):
     m = SparseHeightMap(numpy.array(data, dtype=float))
     outcome, obs = [], {}
     nontrivial = zmin != zmax
+    last_line, prev_scale, prev_tol = None, None, None
     for scale in scales:
         m.set_scale(scale)
         poke_invalid(m, scale=scale)
 
         def depth_of(x, y):
             return float(m.get_depth_at(x, y))
+
+        if last_line is not None:
+            r = rp(scale, prev_tol, line=list(last_line))
+            r["prev_scale"] = prev_scale
+            recheck_after_reconfiguration(col, "sparse", m, last_line, 0.0, depth_of, f"points {data}, scale {prev_scale} -> {scale}", r)
+        prev_scale = scale
 
         for (x, y) in queries:
             col.count("depth_queries")
@@ -589,8 +626,14 @@ def check_sparse(col, pts3, scales, lines_by_tol, queries, want_obs=False):
                 continue
             m.set_tolerance(tol)
             poke_invalid(m, tol=tol)
+            if last_line is not None and prev_tol != tol:
+                r = rp(scale, tol, line=list(last_line))
+                r["prev_tol"] = prev_tol
+                recheck_after_reconfiguration(col, "sparse", m, last_line, 0.0, depth_of, f"points {data}, scale {scale}, tolerance {prev_tol} -> {tol}", r)
+            prev_tol = tol
             for line in lines:
                 col.count("path_calls")
+                last_line = line
                 try:
                     raw = m.sample_path(list(line))
                 except Exception as e:                               # noqa: BLE001
@@ -776,6 +819,7 @@ def run(tier, seed):
             "both scales, plus one 3-unit line at tolerance 0.05, scale 1; rich set = every ordered pair of 8 end points at 0.378 and 6 lines at 0.05, both "
             "scales; " + ("rich for the 4-point sets, lean for the 5- and 6-point sets" if tier == "thorough" else "lean for every set")
             + ". FLAT: same queries, 64 lines. "
+            "after every set_scale / change of tolerance on a live map the line sampled last is sampled again and must carry the heights the map reports now; "
             "evaluations = get_depth_at queries + sample_path calls issued by the grid (re-evaluations for the oracle not counted). "
             "distinct_nontrivial = distinct (map, full outcome vector) digests over maps that are non-trivial: raster maps returning at least one non-zero "
             "height, sparse maps whose stored heights are not all equal."),
@@ -811,11 +855,16 @@ def replay(body):
         lines = [tuple(float(v) for v in rp["line"])] if rp.get("line") else []
         queries = [tuple(float(v) for v in rp["query"])] if rp.get("query") else []
         tols = (rp["tolerance"],) if rp.get("tolerance") else ()
-        obs = check_raster(col, len(rows), len(rows[0]), bits, rows, (rp["scale"],), tols, lines, queries, True)
+        scales = (rp["prev_scale"], rp["scale"]) if rp.get("prev_scale") else (rp["scale"],)
+        obs = check_raster(col, len(rows), len(rows[0]), bits, rows, scales, tols, lines, queries, True)
     else:
         pts3 = tuple(tuple(float(v) for v in p) for p in rp["points"])
-        lines = [(rp["tolerance"], (rp["scale"],), [tuple(float(v) for v in rp["line"])])] if rp.get("line") else []
+        scales = (rp["prev_scale"], rp["scale"]) if rp.get("prev_scale") else (rp["scale"],)
+        line = [tuple(float(v) for v in rp["line"])] if rp.get("line") else None
+        lines = [(rp["tolerance"], scales, line)] if line else []
+        if line and rp.get("prev_tol") is not None:
+            lines = [(rp["prev_tol"], scales, line), (rp["tolerance"], scales, [])]
         queries = [tuple(float(v) for v in rp["query"])] if rp.get("query") else []
-        obs = check_sparse(col, pts3, (rp["scale"],), lines, queries, True)
+        obs = check_sparse(col, pts3, scales, lines, queries, True)
     _, viols, harness, _, _ = col.pack()
     return {"observed": obs, "violations": [[sig, msg] for sig, msg, _ in viols], "harness_errors": harness}
